@@ -7,6 +7,7 @@ CONSTANTS
   MaxAls = 2
   EditVals = {2, 3}
   PairAll = FALSE
+  WithPerturb = TRUE
   WithPinv = FALSE
 VIEW NoHist
 INVARIANT HistoryIndependent
